@@ -350,6 +350,47 @@ func c12(c *Ctx) {
 						if a, ok := st.Addr.(*ssa.Alloc); ok && strings.HasSuffix(a.Type().String(), "CompositionRevision") {
 							if _, isElem := flow.Root(st.Val).(*ssa.Parameter); isElem || flow.Strict.Any(st.Val, func(v ssa.Value) bool { return v == ssa.Value(lr.Params[1]) }) {
 								n++
+								if cfgx.LoopOf(st.Block()) == nil {
+									// the best candidate is tracked by index and copied after the scan:
+									// every update of the tracked index happens past the controlled edge
+									good, found := true, false
+									// the phis that carry the tracked index (phi-to-phi edges only)
+									chain := map[*ssa.Phi]bool{}
+									var walk func(v ssa.Value)
+									walk = func(v ssa.Value) {
+										if p, ok := v.(*ssa.Phi); ok && !chain[p] {
+											chain[p] = true
+											for _, e := range p.Edges {
+												walk(e)
+											}
+										}
+									}
+									for x := range flow.Strict.Back(st.Val) {
+										if ia, ok := x.(*ssa.IndexAddr); ok {
+											walk(ia.Index)
+										}
+									}
+									for phi := range chain {
+										if cfgx.LoopOf(phi.Block()) == nil {
+											continue
+										}
+										for i, e := range phi.Edges {
+											if _, isP := e.(*ssa.Phi); isP {
+												continue
+											}
+											if _, isC := e.(*ssa.Const); isC {
+												continue
+											}
+											found = true
+											pred := phi.Block().Preds[i]
+											if ok, _ := cfgx.MustCross(pred.Instrs[len(pred.Instrs)-1], t, nil); !ok {
+												good = false
+											}
+										}
+									}
+									c.R.Check(good && found, load.FuncName(lr)+": candidate controlled", c.pos(st.Pos()), "the tracked candidate index is only updated for controlled revisions", "the candidate index can be updated for a revision the Composition does not control")
+									continue
+								}
 								c.requireCross(load.FuncName(lr)+": candidate controlled", st, t, "IsControlledBy(rev, c)")
 							}
 						}
